@@ -450,3 +450,15 @@ Example C15_witness_parse_service :
   NoDup (map key_full (map fst (msg_table witness_schema))) /\
   match fst r with (_, i, _) :: _ => q_follow (q_nodes (snd r)) [2; 1] i | [] => None end = Some [w_p; w_B; w_Item].
 Proof. exact witness_parse_service. Qed.
+
+(* The memo is PER CALL: a parse starts from the empty memo table and the empty node list (proto/idl.go parse():
+   `structsCache := compilingCache{}`), so the descriptor returned by a call is a function of the mode and of THAT
+   call's content only — nothing parsed earlier (same path, same includes map, other entry point) can influence it.
+   Together with C15_parse_refines_pelab: every call of a sequence yields pelab of its own content (check 1507). *)
+Theorem C15_parse_memo_is_per_call :
+  forall mode s,
+    parse_service mode s =
+    fold_left (qmethod_step key_full (msg_table s) (parse_fuel s)) (pd_methods (pelab mode s))
+              ([], {| q_cache := []; q_nodes := [] |}).
+Proof. reflexivity. Qed.
+Print Assumptions C15_parse_memo_is_per_call.
